@@ -229,6 +229,18 @@ impl<'a> Exec<'a> {
             }
         };
         let fd = world.new_fd();
+        let mut direct = false;
+        if cfg.direct_slots > 0 && !cfg.sqpoll {
+            if let Err(e) = world.make_fd_direct(fd) {
+                ctx.infra(e);
+                return None;
+            }
+            direct = true;
+        }
+        let mut feats = BTreeSet::new();
+        if direct {
+            feats.insert("direct-descriptor".to_string());
+        }
         Some(Exec {
             world,
             ops: Vec::new(),
@@ -241,7 +253,7 @@ impl<'a> Exec<'a> {
             consumed_seqs: BTreeSet::new(),
             accepted: Vec::new(),
             consumed_sqes: Vec::new(),
-            feats: BTreeSet::new(),
+            feats,
             stop: false,
             cancel_script: {
                 let script: std::sync::Arc<std::sync::Mutex<BTreeMap<u64, CancelChoice>>> = Default::default();
